@@ -218,3 +218,17 @@ def block_comments(model: Any) -> list[str]:
 
 def token_row(store: Any) -> list[tuple[int, str]]:
     return [(id(t), t.raw_text) for t in store]
+
+
+def lexes_as(raw: str, rule: str) -> bool:
+    """Does the grammar's terminal `rule` match exactly the whole of `raw` (lexer only, no model code)?"""
+    import copy as _copy
+    from lark import lexer as _lexer
+    P = get_parser()
+    try:
+        conf = _copy.deepcopy(P._lark.parser.lexer_conf)
+        conf.terminals = [conf.terminals_by_name[rule]]
+        toks = list(_lexer.LexerThread.from_text(_lexer.BasicLexer(conf), raw).lex(None))
+        return len(toks) == 1 and toks[0].type == rule and toks[0].value == raw
+    except Exception:  # noqa: BLE001
+        return False
